@@ -28,10 +28,13 @@ import time
 
 from common import *
 
-LS_TARGET = os.path.join(BUILD, "ls-target")
+# lelwel-ls is built from the tree under test (VERIF_REPO); a scratch tree gets its own target dir
+LS_TARGET = os.path.join(BUILD, "ls-target" if REPO == "/repo" else
+                         "ls-target-" + hashlib.sha1(REPO.encode()).hexdigest()[:8])
 POSITIONAL = ("hover", "definition", "references", "completion")
 OK_CLASSES = ("inname", "intrivia", "lineend", "eolterm")
-EDGE_CLASSES = ("pasteol", "pastlastline", "midsurrogate")
+EDGE_CLASSES = ("pasteol", "pastlastline", "midsurrogate")     # the pre-fix conversion panicked on these
+CLAMPED_CLASSES = EDGE_CLASSES + ("eolterm",)                   # positions the protocol reads as another one
 PACINGS = ("burst", "lockstep", "delayed")
 
 # ----------------------------------------------------------------------------------------------
@@ -160,13 +163,33 @@ class TextInfo:
             return False
         return (s["line"], s["character"]) <= (e["line"], e["character"])
 
+    def clamp_cps(self, line, ch):
+        """The protocol's reading of ANY position, applied by the oracle itself: a character greater
+        than the line length defaults back to the line length (terminator excluded); a line beyond
+        the document is the end of the document; inside a surrogate pair either neighbouring code
+        point boundary is acceptable.  Returns the acceptable code point indices (one or two)."""
+        if line >= self.nlines:
+            return [len(self.text)]
+        st, n, _ = self.lines[line]
+        u = 0
+        for j in range(n):
+            if u == ch:
+                return [st + j]
+            w = 2 if ord(self.text[st + j]) > 0xFFFF else 1
+            if u < ch < u + w:
+                return [st + j, st + j + 1]
+            u += w
+        return [st + n]
+
+    def canonical_positions(self, line, ch):
+        """The in-range protocol positions that (line, ch) means."""
+        return [self.cp_to_pos(i) for i in self.clamp_cps(line, ch)]
+
     def name_at(self, line, ch):
-        i = self.pos_to_cp(line, ch)
-        if i is None:
-            return None
-        for (a, b, w) in self.tokens:
-            if a <= i < b:
-                return w
+        for i in self.clamp_cps(line, ch):
+            for (a, b, w) in self.tokens:
+                if a <= i < b:
+                    return w
         return None
 
     def positions(self):
@@ -215,7 +238,9 @@ def info(text):
 def ensure_ls():
     env = dict(os.environ, CARGO_NET_OFFLINE="true", CARGO_TARGET_DIR=LS_TARGET)
     t0 = time.time()
-    r = subprocess.run(["cargo", "build", "--offline", "--features", "lsp", "--bin", "lelwel-ls"], cwd=REPO,
+    # third-party debug assertions are not part of the shipped (release) behaviour
+    r = subprocess.run(["cargo", "build", "--offline", "--features", "lsp", "--bin", "lelwel-ls",
+                        "--config", "profile.dev.package.dprint-core.debug-assertions=false"], cwd=REPO,
                        env=env, stdout=subprocess.PIPE, stderr=subprocess.STDOUT, text=True)
     if r.returncode != 0:
         sys.stderr.write(r.stdout[-6000:])
@@ -373,6 +398,21 @@ def annotate(sess, T):
             st["tid"] = cur[d]
             st["pc"] = info(T.texts[cur[d]]).classify(st["line"], st["character"]) if st["op"] in POSITIONAL else ""
     return sess
+
+
+def fresh_pairs(sessions, T):
+    """(text id, request) pairs whose fresh-server reply is needed, the clamped twins included."""
+    out = []
+    for s in sessions:
+        for st in s["steps"]:
+            if st["op"] in ("open", "change", "close"):
+                continue
+            out.append((st["tid"], Refs.reqkey(st)))
+            if st.get("pc") in CLAMPED_CLASSES:
+                ti = info(T.texts[st["tid"]])
+                for (cl, cc) in ti.canonical_positions(st["line"], st["character"]):
+                    out.append((st["tid"], Refs.reqkey(dict(st, line=cl, character=cc))))
+    return out
 
 
 def nontrivial(sess):
@@ -598,7 +638,10 @@ def hover_mismatch(res, e, ti):
 # the oracle: one recorded session against the contract
 # ----------------------------------------------------------------------------------------------
 
-POS_UNWRAP_AT = ("src/ide/mod.rs:294", "codespan-lsp")
+def is_position_unwrap(p):
+    """The panic is codespan's position conversion failing (no line numbers: they move with edits)."""
+    return ("codespan-lsp" in (p.get("at") or "") or "ColumnTooLarge" in (p.get("msg") or "")
+            or "LineTooLarge" in (p.get("msg") or ""))
 
 
 def digest(s):
@@ -641,9 +684,12 @@ class Judge:
         self.viol = []            # (key, desc, session id, mode)
         self.counts = {}
         self.notes = {"diagnostics_judged": 0, "hover_judged": 0, "definition_judged": 0, "references_judged": 0,
-                      "fresh_judged": 0, "ranges_judged": 0, "latent_thread_panics": 0, "hover_unjudged": 0, "definition_on_non_name": 0,
+                      "fresh_judged": 0, "ranges_judged": 0, "clamp_equivalence_judged": 0, "clamp_equivalence_mismatch": 0,
+                      "latent_thread_panics": 0, "hover_unjudged": 0, "definition_on_non_name": 0,
                       "definition_other_file": 0, "range_in_terminator": 0, "reference_text_panics": 0}
         self.defref_queries = []  # (tid, line, ch) -> follow-up reference queries
+        self.clamp_examples = []
+        self.unmodelled = set()   # sessions with an analyzer-thread panic the model has no deviation for
 
     def flag(self, key, desc, sess, rec):
         self.counts[key] = self.counts.get(key, 0) + 1
@@ -667,10 +713,10 @@ class Judge:
         tp = self.thread_panics_of(rec)
         if tp:
             trigger, root = tp[0]
-            if any(x in (root.get("at") or "") for x in POS_UNWRAP_AT):
+            if is_position_unwrap(root):
                 if trigger is None:   # stdio: the first request with a position the conversion rejects
                     trigger = next((i for i, st in enumerate(steps[:at + 1]) if st.get("pc") in EDGE_CLASSES), None)
-                if trigger is not None:
+                if trigger is not None and steps[trigger].get("pc") in EDGE_CLASSES:
                     st = steps[trigger]
                     fam = "position_mid_surrogate" if st.get("pc") == "midsurrogate" else "position_past_line_end"
                     return "%s:%s:%s" % (fam, st["op"], st.get("pc")), root, trigger
@@ -738,6 +784,8 @@ class Judge:
                 events.append(ev)
                 continue
             if tpan or i == stdio_trigger:
+                if tpan and not is_position_unwrap(tpan[0]):
+                    self.unmodelled.add(sess["id"])
                 ev["out"] = "default"
                 poisoned[d] = i
                 self.notes["latent_thread_panics"] += 1
@@ -801,6 +849,21 @@ class Judge:
                                                         " but the one for an OLDER text" if stale else "", res, fr["result"]), sess, rec)
             else:
                 ev["tag"] = tid      # no usable reference (the fresh run itself panicked): not judged
+            # an out-of-range position means a position inside the document (protocol rule): the reply
+            # should be the one for that position.  Not a clause of C20 => counted, not an alarm.
+            if st.get("pc") in CLAMPED_CLASSES:
+                alts = []
+                for (cl, cc) in ti.canonical_positions(st["line"], st["character"]):
+                    fc = self.refs.fresh.get((tid, Refs.reqkey(dict(st, line=cl, character=cc))))
+                    if fc is not None and "result" in fc:
+                        alts.append(canon(fc["result"]))
+                if alts:
+                    self.notes["clamp_equivalence_judged"] += 1
+                    if mine not in alts:
+                        self.notes["clamp_equivalence_mismatch"] += 1
+                        if len(self.clamp_examples) < 5:
+                            self.clamp_examples.append({"session": sess["id"], "step": strip_step(st), "text": text,
+                                                        "reply": res})
             # every returned range inside the document
             in_doc = True
             for g in ranges_of(op, res if op != "definition" or (res and res.get("uri", "").endswith("doc%d.llw" % d)) else None):
@@ -837,13 +900,13 @@ class Judge:
                                       % (sess["id"], w, i, strip_step(st), decl, text), sess, rec)
                         self.defref_queries.append((sess, rec, i, tid, res["range"]))
             if op == "references" and res and in_doc:
-                here = ti.pos_to_cp(st["line"], st["character"])
+                here = ti.clamp_cps(st["line"], st["character"])
                 self.notes["references_judged"] += 1
                 spell = set()
                 for g in res:
                     a = ti.pos_to_cp(g["range"]["start"]["line"], g["range"]["start"]["character"])
                     b = ti.pos_to_cp(g["range"]["end"]["line"], g["range"]["end"]["character"])
-                    if st.get("include_declaration") and a <= here < b:
+                    if st.get("include_declaration") and any(a <= h < b for h in here):
                         continue      # the node under the cursor itself (the "declaration")
                     spell.add(text[a:b])
                 bad = [w for w in spell if not re.fullmatch(r"[A-Za-z_]\w*|'(?:[^'\\\n]|\\.)*'", w)]
@@ -884,14 +947,14 @@ class Judge:
             checked += 1
             st = sess["steps"][i]
             ti = info(self.T.texts[tid])
-            here = ti.pos_to_cp(st["line"], st["character"])
+            here = ti.clamp_cps(st["line"], st["character"])
             got = fr["result"] or []
             has_decl = any(g["range"] == rng for g in got)
             covers = False
             for g in got:
                 a = ti.pos_to_cp(g["range"]["start"]["line"], g["range"]["start"]["character"])
                 b = ti.pos_to_cp(g["range"]["end"]["line"], g["range"]["end"]["character"])
-                if a is not None and b is not None and a <= here < b and g["range"] != rng:
+                if a is not None and b is not None and any(a <= h < b for h in here) and g["range"] != rng:
                     covers = True
             if not (has_decl and covers):
                 self.flag("DefRef:references_of_definition_miss_the_use",
@@ -1029,7 +1092,7 @@ def judge(prop, tier):
     sessions += sweep_sessions(T, POSITIONAL, 3 if quick else 1)
     nrand = 300 if quick else 1500
     for k in range(nrand):
-        sessions.append(random_session(rng, T, "rand:%d" % k, 0.02 if k % 3 else 0.0))
+        sessions.append(random_session(rng, T, "rand:%d" % k, 0.12 if k % 3 else 0.0))
     for s in sessions:
         annotate(s, T)
     by_id = {s["id"]: s for s in sessions}
@@ -1040,8 +1103,7 @@ def judge(prop, tier):
     t0 = time.time()
     recA = run_inproc(sessions, "main")
     refs.need_exports([st["tid"] for s in sessions for st in s["steps"]])
-    refs.need_fresh([(st["tid"], Refs.reqkey(st)) for s in sessions for st in s["steps"]
-                     if st["op"] not in ("open", "change", "close")])
+    refs.need_fresh(fresh_pairs(sessions, T))
     t_inproc = time.time() - t0
     log("in-process replay of %d sessions + %d fresh-server references in %.1fs" % (len(sessions), refs.fresh_runs, t_inproc))
 
@@ -1112,7 +1174,7 @@ def judge(prop, tier):
     # a rejected recording whose session also broke the contract is explained by that violation;
     # the remaining ones are model drift
     modelled = ("position_past_line_end", "position_mid_surrogate")
-    flagged_unmodelled = {v[2] for v in J.viol if not any(m in v[0] for m in modelled)}
+    flagged_unmodelled = {v[2] for v in J.viol if not any(m in v[0] for m in modelled)} | J.unmodelled
     pure_drift = [i for i in drift if i not in flagged]
     drift_unmodelled_cause = [i for i in drift if i in flagged_unmodelled]
     log("trace validation of %d recorded sessions in %.1fs: %r; %d self-test corruptions rejected" % (
@@ -1123,13 +1185,18 @@ def judge(prop, tier):
     for key, desc, sid, mode, pacing in J.viol:
         per_key.setdefault(key, []).append((desc, sid, mode, pacing))
     # causes outside the pre-registered family first (Report.finish writes the first few witnesses only)
+    # one witness per cause family first (Report.finish prints the first few witnesses only), the
+    # pre-registered family last
+    def family(k):
+        return ":".join(k.split(":")[:3])
     order = sorted(per_key, key=lambda k: ("position_past_line_end" in k, k.count(":"), k))
-    for rank in (0, 1):
-        for key in order:
-            for desc, sid, mode, pacing in per_key[key][rank:rank + 1]:
-                s = by_id[sid]
-                rep.violation(key, desc, {"property": prop, "key": key, "mode": mode, "pacing": pacing,
-                                          "session": strip(s), "how": "./check C20 --replay <this file>"})
+    done = set()
+    first = [k for k in order if not (family(k) in done or done.add(family(k)))]
+    for key in first + [k for k in order if k not in first]:
+        for desc, sid, mode, pacing in per_key[key][:1]:
+            s = by_id[sid]
+            rep.violation(key, desc, {"property": prop, "key": key, "mode": mode, "pacing": pacing,
+                                      "session": strip(s), "how": "./check C20 --replay <this file>"})
 
     op_counts = {}
     for s in sessions:
@@ -1151,8 +1218,10 @@ def judge(prop, tier):
                   "as_built_counterexample": {"violates": asb.violated, "history": cex, "states": asb.distinct},
                   "race_counterexample": {"violates": race.violated,
                                           "history": (race.payload("DEATH") or [{}])[0].get("hist")}},
-        "traces_validated_against_impl": len(items),
-        "trace_validation": dict(vcount, states=tstats["states"], wall_s=round(t_trace, 1)),
+        "traces_validated_against_impl": vcount["intended"] + vcount["asbuilt"],
+        "trace_validation": dict(vcount, submitted=len(items), states=tstats["states"], wall_s=round(t_trace, 1),
+                                 meaning="intended = accepted by Lsp.tla with AsBuilt={}; asbuilt = accepted only with the "
+                                         "named deviation PositionUnwrap; rejected = explained by neither"),
         "samples": samples,
         "evaluations": len(sessions) + len(sample) * len(PACINGS),
         "distinct_nontrivial": len(distinct),
@@ -1178,6 +1247,7 @@ def judge(prop, tier):
                              "kinds": sorted({i.split(":")[1] for i, _ in selftests})},
         "violation_counts": J.counts,
         "notes": J.notes,
+        "clamp_equivalence_examples": J.clamp_examples,
         "wall": {"tlc_model_s": round(mc.wall + live.wall + asb.wall + race.wall, 1), "in_process_s": round(t_inproc, 1),
                  "stdio_s": round(t_stdio, 1), "trace_validation_s": round(t_trace, 1),
                  "total_after_build_s": round(time.time() - t_start, 1)},
@@ -1203,7 +1273,7 @@ def replay(prop, path):
     s = annotate(dict(r["session"], origin="replay"), T)
     refs = Refs(T)
     refs.need_exports([st["tid"] for st in s["steps"]])
-    refs.need_fresh([(st["tid"], Refs.reqkey(st)) for st in s["steps"] if st["op"] not in ("open", "change", "close")])
+    refs.need_fresh(fresh_pairs([s], T))
     J = Judge(T, refs)
     if r.get("mode") == "stdio":
         ls = ensure_ls()
